@@ -92,10 +92,27 @@ open Classical in
 is the neutral element -/
 theorem EdwardsIsIdentity_iff {P : Ext} {A : Ed25519} (hP : Represents P A) :
     EdwardsIsIdentity_sh P.X P.Y P.Z P.T = [if A = 0 then 1 else 0] := by
-  have h := EdwardsEqual_iff hP Represents.zero
-  simp only [Ext.zero] at h
-  rw [← h]
-  rfl
+  first
+  | -- the code compares with the identity point through `Equal`
+    (have h := EdwardsEqual_iff hP Represents.zero
+     simp only [Ext.zero] at h
+     rw [← h]
+     rfl)
+  | -- the code tests X = 0 and Y = Z directly
+    (have key := ExtK.Rep.isZero_iff hP
+     simp only [extToK] at key
+     simp only [EdwardsIsIdentity_sh, FIR.fisZero, FIR.feq, FIR.band]
+     have e1 : (P.X % p = 0) ↔ toZ P.X = 0 := toZ_eq_zero_iff.symm
+     have e2 : (P.Y % p = P.Z % p) ↔ toZ P.Y = toZ P.Z := toZ_eq_iff.symm
+     by_cases hA : A = 0
+     · have := key.2 hA
+       rw [if_pos (e1.2 this.1), if_pos (e2.2 this.2), if_pos hA]; rfl
+     · rw [if_neg hA]
+       by_cases h1 : P.X % p = 0
+       · by_cases h2 : P.Y % p = P.Z % p
+         · exact absurd (key.1 ⟨e1.1 h1, e2.1 h2⟩) hA
+         · rw [if_pos h1, if_neg h2]; rfl
+       · rw [if_neg h1]; split <;> rfl)
 
 /-- **IsSmallOrder** is `IsIdentity ∘ MulByCofactor` (by `rfl` on the regenerated programs) … -/
 theorem EdwardsIsSmallOrder_comp (X Y Z T : Nat) :
